@@ -146,7 +146,7 @@ EvCut(id, h)  == [ev |-> "cut", id |-> id, h |-> h, t |-> now]
 PKind(k) == CASE k \in {"ok", "ok206"} -> "ok"
               [] k \in {"short0", "short1", "short206"} -> "trunc"
               [] k \in {"s429", "s408", "s500", "s502", "s504"} -> "tf"
-              [] k = "s429ra" -> "ra"
+              [] k \in {"s429ra", "s500ra"} -> "ra"
               [] k = "reset" -> "reset"
               [] k = "s404" -> "nf"
               [] k = "s416" -> "rng"
@@ -154,7 +154,7 @@ PKind(k) == CASE k \in {"ok", "ok206"} -> "ok"
               [] k \in {"okclbad", "ok200"} -> "badok"
               [] OTHER -> "other"
 EvAtt(id, h, t, k) == [ev |-> "att", id |-> id, h |-> h, ta |-> t, tr |-> t, k |-> PKind(k),
-                       ra |-> IF k = "s429ra" THEN RA ELSE 0, mut |-> Bit(Mut(id)),
+                       ra |-> IF k \in {"s429ra", "s500ra"} THEN RA ELSE 0, mut |-> Bit(Mut(id)),
                        mir |-> Bit(~conf.req[id].nomir /\ ~Mut(id)), sig |-> Sig(id), inj |-> Bit(PKind(k) # "ok"),
                        raw |-> k]
 
@@ -249,9 +249,9 @@ Attempt ==
      IN \E k \in Offered(id, range) :
         LET good    == k \in {"ok", "ok206", "short0", "short1", "short206"}
             retryH  == k = "s401n" \/ (k = "s401s" /\ ~bg.h.realm)
-            bo      == k \in {"reset", "s429", "s429ra", "s408", "s500", "s502", "s504", "s403", "s503"}
+            bo      == k \in {"reset", "s429", "s429ra", "s500ra", "s408", "s500", "s502", "s504", "s403", "s503"}
             drop0   == k \in {"s401b", "s404", "s416", "s403", "s503", "ok200"} \/ (k = "s401s" /\ bg.h.realm)
-            set     == BackoffSet(bg.h, t, k = "s429ra")
+            set     == BackoffSet(bg.h, t, k \in {"s429ra", "s500ra"})
             hst     == IF bo /\ ~ie THEN set.h ELSE bg.h
             drop    == drop0 \/ (bo /\ (ie \/ set.lim))
             hst2    == [hst EXCEPT !.realm = @ \/ k \in {"s401n", "s401s"}]
@@ -279,7 +279,7 @@ Attempt ==
                    /\ call' = IF call.kind = "read" THEN [call EXCEPT !.ph = "consume", !.hosts = <<>>, !.ci = 1]
                               ELSE NoCall
               ELSE /\ rs' = [rs EXCEPT ![id] = [r EXCEPT !.retry = @ + 1, !.mirror = h, !.bodyused = TRUE,
-                                                        !.has = k # "reset", !.hasra = k = "s429ra"]]
+                                                        !.has = k # "reset", !.hasra = k \in {"s429ra", "s500ra"}]]
                    /\ call' = [call EXCEPT !.err = TRUE,
                                            !.hosts = IF drop THEN DropAt(call.hosts, ci) ELSE @,
                                            !.ci = IF drop \/ retryH THEN ci ELSE ci + 1]
